@@ -445,7 +445,7 @@ def execute(trace):
             elif wsk == "sibling":
                 w_arg = os.path.join(B, "ws_sibling_with_a_rather_longer_directory_name_0123456789")
             elif wsk == "otherfs":
-                base = os.environ.get("TMPDIR") or "/tmp"
+                base = os.environ.get("LIAN_SIM_OTHER_FS") or "/tmp"        # the machine's own temporary directory: another file system than the scratch
                 try:
                     d = tempfile.mkdtemp(prefix="lian-sim-c14-", dir=base)
                     extra_dirs.append(d)
